@@ -10,3 +10,7 @@ package affinity
 //@   ensures affinity == nil ==> result == ""
 //@   loop 1 invariant true
 //@   loop 2 invariant true
+//@ func ReplaceNodeNameNodeAffinity
+//@   trusted
+//@   modifies obj(affinity), obj(affinity.NodeAffinity)
+//@   ensures result != nil && (affinity != nil ==> result == affinity) && (affinity == nil ==> fresh(result))
